@@ -234,12 +234,27 @@ func (s *GroupTransactSession) failed() bool {
 // it will likely leave the client in an invalid state. Canceling should only
 // be done if you want to shut down.
 func (s *GroupTransactSession) End(ctx context.Context, commit TransactionEndTry) (committed bool, err error) {
-	defer func() {
-		s.failMu.Lock()
+	// resetFailed requires failMu to be held. Once we hold failMu for the
+	// EndTxn below, the reset must happen before that same hold is
+	// released: onRevoked / onLost block on failMu while we end, and one
+	// that ran between our unlock and a reset in a later critical section
+	// was erased by it. The records the user polled before that revoke or
+	// loss are produced in the NEXT transaction, whose End then saw
+	// nothing, committed the outputs with no offsets (the loss emptied
+	// them), and the new owner of the partitions produced them again.
+	resetFailed := func() {
 		s.revoked = false
 		s.revokedCh = make(chan struct{})
 		s.lost = false
 		s.lostCh = make(chan struct{})
+	}
+	var didReset bool
+	defer func() {
+		if didReset {
+			return
+		}
+		s.failMu.Lock()
+		resetFailed()
 		s.failMu.Unlock()
 	}()
 
@@ -425,9 +440,15 @@ func (s *GroupTransactSession) End(ctx context.Context, commit TransactionEndTry
 	// stable cluster. On an unstable cluster, I still expect clients to be
 	// slower than intra-cluster communication, but there is a risk.
 	if kip447 {
-		defer s.failMu.Unlock()
+		defer func() {
+			resetFailed()
+			didReset = true
+			s.failMu.Unlock()
+		}()
 	} else {
 		defer func() {
+			resetFailed()
+			didReset = true
 			if committed {
 				s.cl.cfg.logger.Log(LogLevelDebug, "sleeping 500ms before allowing a rebalance to continue to give the brokers a chance to write txn markers and avoid duplicates")
 				go func() {
